@@ -59,6 +59,7 @@ class Rig:
         self.w = fakezmq.World()
         self.Z = Z = fakezmq.install(self.w)
         self.variant = variant
+        self.xcid = variant.get('xcid', 'X')
         self.log = []
         self.frame = 0
         self.rets = []
@@ -109,7 +110,7 @@ class Rig:
         elif k == 'other':
             ok = ev['eph'] != 0 or ev['mid'] < self.S.min_send_id
             if ok:
-                env = {'cid': 'X', 'uid': 'x', 'mid': ev['mid']}
+                env = {'cid': self.xcid, 'uid': 'x', 'mid': ev['mid']}     # the second client's name: 'X', or one that has / is a prefix of the required consumer's name
                 if ev['eph']: env['eph'] = ev['eph']
                 if ev['new']: env['new'] = True
                 if ev['mid'] == -2: env['xtra'] = 0
@@ -122,7 +123,7 @@ class Rig:
 
     def snap(self):
         S, R, snd = self.S, self.R, self.snd
-        fid = lambda f: 'R0' if f == 'R' + snd.unique_id else f
+        fid = lambda f: 'R0' if f == 'R' + snd.unique_id else 'Xx' if f == self.xcid + 'x' else f
         return {'min': S.min_send_id, 'frame': self.frame, 'up': self.up(),
                 'clients': [[fid(f), c.t_last, bool(c.requested), c.ephemeral, c.prev_id] for f, c in S.clients.items()],
                 'prev': R.prev_id, 'conn': bool(snd.conn), 'reg': snd.sub in R.poller,
